@@ -26,9 +26,6 @@ ElemStr(elem, x) == IF elem = "int" THEN ToString(x) ELSE PrintItem(x)
 ElemShallowEq(elem, a, b) == IF elem = "int" THEN a = b ELSE a.k = b.k
 ElemStrEq(elem, a, b) == IF elem = "int" THEN a = b ELSE PrintItem(a) = PrintItem(b)
 
-\* ( n ( n-1 ( ... ( 1 leaf ) ... ) ) ) as the harness builds it (Item::list takes the elements bottom first)
-RECURSIVE DeepItem(_, _)
-DeepItem(n, leaf) == IF n = 0 THEN IInt(leaf) ELSE IList(<<IInt(n), DeepItem(n - 1, leaf)>>)
 StackOp(elem, m, a, s) ==
   LET n == Len(s) IN
   CASE m = "to_string" -> PR(s, RVal(JoinStr([i \in 1..n |-> ElemStr(elem, s[i])], " ")))
